@@ -69,6 +69,10 @@ def projects(tier):
         out.append({"desc": {"targets": [["eqset", "eq5"]], "invariants": [[0, "t", "ne", 1], [0, "s", "ne", 5], [0, "s", "ne", 12]], "filters": None}, "depth": d})
     for fns in (["arm", "late", "anyt", "early"], ["arm", "anyt", "late", "early"]):
         out.append({"desc": {"targets": [fns], "invariants": [[0, "t", "ne", 9], [0, "s", "ne", 2]], "filters": None}, "depth": 3})
+    # target functions whose names are reserved in the test contract only (check_*, invariant_*, prove_*, setUp(), afterInvariant())
+    for fns in (["chk"], ["inc", "invx"], ["stp", "aft"], ["prv", "inc"]):
+        for d in ((1, 2) if tier == "quick" else (1, 2, 3)):
+            out.append({"desc": {"targets": [fns], "invariants": [[0, "s", "ne", 7], [0, "s", "ne", 5], [0, "s", "ne", 3], [0, "s", "ne", 4], [0, "t", "ne", 9]], "filters": None}, "depth": d})
     # two targets, filters: every combination over a 2-element pool
     two = [["inc", "own"], ["set", "step"]]
     inv2 = [[0, "s", "ne", 2], [0, "s", "ne", 7], [1, "s", "ne", 5], [1, "s", "ne", 3], [0, "s", "le", 1]]
